@@ -210,3 +210,163 @@ extern "C" void w_FreeZeroObjVariable(PS_PARAMS, int m_j, int m_old_j, int m_old
    h.body();
 }
 #endif
+
+/* ------------------------------------------------------------------------------------------- */
+#ifdef INST_ZeroObjColSingleton
+struct H : PostStepHost
+{
+   int m_j; int m_i; int m_old_j; R m_lhs; R m_rhs; R m_lower; R m_upper; DSVectorBase<R> m_row;
+   void body() const
+   {
+      PS_PROLOGUE
+#include "ZeroObjColSingletonPS.inc"
+   }
+};
+extern "C" void w_ZeroObjColSingleton(PS_PARAMS, int m_j, int m_i, int m_old_j, double m_lhs, double m_rhs, double m_lower, double m_upper,
+                                      int* row_idx, double* row_val, int row_n)
+{
+   H h; PS_BIND(h) h.m_j = m_j; h.m_i = m_i; h.m_old_j = m_old_j; h.m_lhs = m_lhs; h.m_rhs = m_rhs; h.m_lower = m_lower; h.m_upper = m_upper;
+   PS_SVEC(h.m_row, row_idx, row_val, row_n, nC)
+   h.body();
+}
+#endif
+
+/* ------------------------------------------------------------------------------------------- */
+#ifdef INST_FreeColSingleton
+struct H : PostStepHost
+{
+   int m_j; int m_i; int m_old_j; int m_old_i; R m_obj; R m_lRhs; bool m_onLhs; bool m_eqCons; DSVectorBase<R> m_row;
+   void body() const
+   {
+      PS_PROLOGUE
+#include "FreeColSingletonPS.inc"
+   }
+};
+extern "C" void w_FreeColSingleton(PS_PARAMS, int m_j, int m_i, int m_old_j, int m_old_i, double m_obj, double m_lRhs, int m_onLhs, int m_eqCons,
+                                   int* row_idx, double* row_val, int row_n)
+{
+   H h; PS_BIND(h) h.m_j = m_j; h.m_i = m_i; h.m_old_j = m_old_j; h.m_old_i = m_old_i; h.m_obj = m_obj; h.m_lRhs = m_lRhs;
+   h.m_onLhs = m_onLhs != 0; h.m_eqCons = m_eqCons != 0;
+   PS_SVEC(h.m_row, row_idx, row_val, row_n, nC)
+   h.body();
+}
+#endif
+
+/* ------------------------------------------------------------------------------------------- */
+#ifdef INST_MultiAggregation
+struct H : PostStepHost
+{
+   int m_j; int m_i; int m_old_j; int m_old_i; R m_upper; R m_lower; R m_obj; R m_const; bool m_onLhs; bool m_eqCons;
+   DSVectorBase<R> m_row; DSVectorBase<R> m_col;
+   void body() const
+   {
+      PS_PROLOGUE
+#include "MultiAggregationPS.inc"
+   }
+};
+extern "C" void w_MultiAggregation(PS_PARAMS, int m_j, int m_i, int m_old_j, int m_old_i, double m_upper, double m_lower, double m_obj,
+                                   double m_const, int m_onLhs, int m_eqCons, int* row_idx, double* row_val, int row_n,
+                                   int* col_idx, double* col_val, int col_n)
+{
+   H h; PS_BIND(h) h.m_j = m_j; h.m_i = m_i; h.m_old_j = m_old_j; h.m_old_i = m_old_i; h.m_upper = m_upper; h.m_lower = m_lower;
+   h.m_obj = m_obj; h.m_const = m_const; h.m_onLhs = m_onLhs != 0; h.m_eqCons = m_eqCons != 0;
+   PS_SVEC(h.m_row, row_idx, row_val, row_n, nC)
+   PS_SVEC(h.m_col, col_idx, col_val, col_n, nR)
+   h.body();
+}
+#endif
+
+/* ------------------------------------------------------------------------------------------- */
+#ifdef INST_Aggregation
+struct H : PostStepHost
+{
+   int m_j; int m_i; int m_old_j; int m_old_i; R m_upper; R m_lower; R m_obj; R m_oldupper; R m_oldlower; R m_rhs;
+   DSVectorBase<R> m_row; DSVectorBase<R> m_col;
+   void body() const
+   {
+      PS_PROLOGUE
+#include "AggregationPS.inc"
+   }
+};
+extern "C" void w_Aggregation(PS_PARAMS, int m_j, int m_i, int m_old_j, int m_old_i, double m_upper, double m_lower, double m_obj,
+                              double m_oldupper, double m_oldlower, double m_rhs, int* row_idx, double* row_val, int row_n,
+                              int* col_idx, double* col_val, int col_n)
+{
+   H h; PS_BIND(h) h.m_j = m_j; h.m_i = m_i; h.m_old_j = m_old_j; h.m_old_i = m_old_i; h.m_upper = m_upper; h.m_lower = m_lower;
+   h.m_obj = m_obj; h.m_oldupper = m_oldupper; h.m_oldlower = m_oldlower; h.m_rhs = m_rhs;
+   PS_SVEC(h.m_row, row_idx, row_val, row_n, nC)
+   PS_SVEC(h.m_col, col_idx, col_val, col_n, nR)
+   h.body();
+}
+#endif
+
+/* ------------------------------------------------------------------------------------------- */
+#ifdef INST_DoubletonEquation
+struct H : PostStepHost
+{
+   int m_j; int m_k; int m_i; bool m_maxSense; bool m_jFixed; R m_jObj; R m_kObj; R m_aij; bool m_strictLo; bool m_strictUp;
+   R m_newLo; R m_newUp; R m_oldLo; R m_oldUp; R m_Lo_j; R m_Up_j; R m_lhs; R m_rhs; DSVectorBase<R> m_col;
+   void body() const
+   {
+      PS_PROLOGUE
+#include "DoubletonEquationPS.inc"
+   }
+};
+extern "C" void w_DoubletonEquation(PS_PARAMS, int m_j, int m_k, int m_i, int m_maxSense, int m_jFixed, double m_jObj, double m_kObj, double m_aij,
+                                    int m_strictLo, int m_strictUp, double m_newLo, double m_newUp, double m_oldLo, double m_oldUp,
+                                    double m_Lo_j, double m_Up_j, double m_lhs, double m_rhs, int* col_idx, double* col_val, int col_n)
+{
+   H h; PS_BIND(h) h.m_j = m_j; h.m_k = m_k; h.m_i = m_i; h.m_maxSense = m_maxSense != 0; h.m_jFixed = m_jFixed != 0; h.m_jObj = m_jObj;
+   h.m_kObj = m_kObj; h.m_aij = m_aij; h.m_strictLo = m_strictLo != 0; h.m_strictUp = m_strictUp != 0; h.m_newLo = m_newLo; h.m_newUp = m_newUp;
+   h.m_oldLo = m_oldLo; h.m_oldUp = m_oldUp; h.m_Lo_j = m_Lo_j; h.m_Up_j = m_Up_j; h.m_lhs = m_lhs; h.m_rhs = m_rhs;
+   PS_SVEC(h.m_col, col_idx, col_val, col_n, nR)
+   h.body();
+}
+#endif
+
+/* ------------------------------------------------------------------------------------------- */
+#ifdef INST_DuplicateCols
+struct H : PostStepHost
+{
+   int m_j; int m_k; R m_loJ; R m_upJ; R m_loK; R m_upK; R m_scale; bool m_isFirst; bool m_isLast; DataArray<int> m_perm;
+   void body() const
+   {
+      PS_PROLOGUE
+#include "DuplicateColsPS.inc"
+   }
+};
+extern "C" void w_DuplicateCols(PS_PARAMS, int m_j, int m_k, double m_loJ, double m_upJ, double m_loK, double m_upK, double m_scale,
+                                int m_isFirst, int m_isLast, int* perm, int perm_n)
+{
+   H h; PS_BIND(h) h.m_j = m_j; h.m_k = m_k; h.m_loJ = m_loJ; h.m_upJ = m_upJ; h.m_loK = m_loK; h.m_upK = m_upK; h.m_scale = m_scale;
+   h.m_isFirst = m_isFirst != 0; h.m_isLast = m_isLast != 0; h.m_perm.data = perm; h.m_perm.thesize = perm_n;
+   h.body();
+}
+#endif
+
+/* ------------------------------------------------------------------------------------------- */
+#ifdef INST_DuplicateRows
+struct H : PostStepHost
+{
+   int m_i; R m_i_rowObj; int m_maxLhsIdx; int m_minRhsIdx; bool m_maxSense; bool m_isFirst; bool m_isLast; bool m_fixed; int m_nCols;
+   DSVectorBase<R> m_scale; DSVectorBase<R> m_rowObj; DataArray<int> m_rIdxLocalOld; DataArray<int> m_perm; DataArray<bool> m_isLhsEqualRhs;
+   void body() const
+   {
+      PS_PROLOGUE
+#include "DuplicateRowsPS.inc"
+   }
+};
+extern "C" void w_DuplicateRows(PS_PARAMS, int m_i, double m_i_rowObj, int m_maxLhsIdx, int m_minRhsIdx, int m_maxSense, int m_isFirst,
+                                int m_isLast, int m_fixed, int m_nCols, int* scale_idx, double* scale_val, int scale_n,
+                                int* robj_idx, double* robj_val, int* rIdxLocalOld, int* perm, int perm_n, bool* isLhsEqualRhs)
+{
+   H h; PS_BIND(h) h.m_i = m_i; h.m_i_rowObj = m_i_rowObj; h.m_maxLhsIdx = m_maxLhsIdx; h.m_minRhsIdx = m_minRhsIdx;
+   h.m_maxSense = m_maxSense != 0; h.m_isFirst = m_isFirst != 0; h.m_isLast = m_isLast != 0; h.m_fixed = m_fixed != 0; h.m_nCols = m_nCols;
+   PS_SVEC(h.m_scale, scale_idx, scale_val, scale_n, nR)
+   PS_SVEC(h.m_rowObj, robj_idx, robj_val, scale_n, nR)
+   h.m_rIdxLocalOld.data = rIdxLocalOld; h.m_rIdxLocalOld.thesize = scale_n;
+   h.m_perm.data = perm; h.m_perm.thesize = perm_n;
+   h.m_isLhsEqualRhs.data = isLhsEqualRhs; h.m_isLhsEqualRhs.thesize = scale_n;
+   h.body();
+}
+#endif
